@@ -520,6 +520,9 @@ class Evaluator:
             return f'const:{bool(v.v)}'
         if isinstance(v, Rat) and v.is_const():
             return f'const:{v.constval() != 0}'
+        ba = v.single_atom() if isinstance(v, Rat) else None
+        if ba is not None and ba.kind == 'fn' and ba.name in ('bool', 'call:bool') and len(ba.args) == 1:
+            return f'truth({vkey(ba.args[0])})'          # the truth of bool(x) is the truth of x
         return f'truth({vkey(v)})'
 
     # ================================================================== expressions
@@ -717,7 +720,13 @@ class Evaluator:
         return fn(type(op).__name__.lower(), a, b)
 
     def attribute(self, e, st):
-        base = self.ev(e.value, st)
+        return self.attr_of(self.ev(e.value, st), e, st)
+
+    def attr_of(self, base, e, st):
+        ga = base.single_atom() if isinstance(base, Rat) else None
+        if ga is not None and ga.kind == 'gamma' and isinstance(ga.args[1], Rat) and isinstance(ga.args[2], Rat):
+            # an attribute of `a if c else b` is the attribute of a if c, else of b
+            return merge2(ga.args[0], self.attr_of(ga.args[1], e, st), self.attr_of(ga.args[2], e, st))
         p = path_of(base)
         if p is not None:
             key = f'{p}.{e.attr}'
